@@ -101,9 +101,36 @@ func genBookGames(rng *Rng, n int) []bookGame {
 			if len(legal) == 0 {
 				break
 			}
-			if plies <= 40 && rng.Chance(2) && len(g.moves) > 2 { // an illegal move ends the usable part
-				g.uci = append(g.uci, "a1a1", "e2e4") // from == to: never a legal move (e1e8 can be one: Re1xe8)
-				g.san = append(g.san, "Qxz9", "e4")
+			if plies <= 40 && rng.Chance(4) && len(g.moves) > 2 { // an illegal move ends the usable part
+				// an unreadable token ends the usable part; what follows would be playable had the token been a move
+				var np []Move
+				for _, x := range legal {
+					if x.MoveType() == Normal {
+						np = append(np, x)
+					}
+				}
+				if len(np) > 0 && rng.Bool() {
+					// a legal move with a stray promotion letter, then the game goes on as if it had been played
+					x := np[rng.Intn(len(np))]
+					letter := []string{"q", "n", "r", "b"}[rng.Intn(4)]
+					g.uci = append(g.uci, x.StringUci()+letter)
+					g.san = append(g.san, sanOf(p, x, legal, false)+"="+strings.ToUpper(letter))
+					cp := *p
+					cp.DoMove(x)
+					for k := 0; k < 2; k++ {
+						cl := w.legalMoves(&cp)
+						if len(cl) == 0 {
+							break
+						}
+						y := cl[rng.Intn(len(cl))]
+						g.uci = append(g.uci, y.StringUci())
+						g.san = append(g.san, sanOf(&cp, y, cl, false))
+						cp.DoMove(y)
+					}
+				} else {
+					g.uci = append(g.uci, "a1a1", "e2e4") // from == to: never a legal move (e1e8 can be one: Re1xe8)
+					g.san = append(g.san, "Qxz9", "e4")
+				}
 				g.illegal = true
 				break
 			}
